@@ -202,6 +202,19 @@ def job(payload):
                             bad.append(("O2:E? vs (E,): " + w, dict(a=tq, b=te)))
                 if sorted(parts) != whole:
                     bad.append(("O2:per-input-clean-slate", dict(text=t, whole=len(whole), parts=len(parts))))
+                # closure VALUES that captured values, lying below the slots the body works on: every stack the closure
+                # operator sees carries copies of them; the reachable set and termination must not change
+                if i % 4 == 0:
+                    pfx, mult = rng.choice([('let Ca := 1; let Cb := "x"; {Ca} {Ca Cb}', 1), ("let Ca := [1, [2]]; {Ca}", 1), ("(1, 1) (|Ca| {Ca})", 2),
+                                            ("[let Ca := 1; {Ca}]", 1), ("(1, 2) (|Ca| {Ca 1 add}) 7", 2)])
+                    tc = pfx + " " + t
+                    rc = d.run(tc, fuel=FUEL * 2, max=MAXRES * 2)
+                    out["rel"] += 1
+                    out["closure_underlay"] = out.get("closure_underlay", 0) + 1
+                    if rc["st"] == "error" and "fuel" in rc["msg"] or rc["st"] == "cut":
+                        bad.append(("non-termination:closure-values-below-the-working-slots", dict(text=tc)))
+                    elif rc["st"] != "done" or len(rc["res"]) != mult * len(whole):
+                        bad.append(("O2:closure-values-below-change-the-reachable-set", dict(text=tc, want=mult * len(whole), got=len(rc.get("res", [])), st=rc["st"])))
         except common.DriverCrash as ex:
             bad.append(("crash:" + getattr(ex, "key", ex.kind), dict(text=zast.text(body), report=ex.report[-3000:])))
         except common.DriverTimeout as ex:
@@ -287,6 +300,7 @@ def run(chk):
         "O1_model_comparisons": tot.get("o1", 0), "O1_skipped": tot.get("o1_skipped", 0),
         "O2_relations_checked": tot.get("rel", 0) + t2.get("rel", 0),
         "cases_where_E_E*_had_duplicates_ie_cycles_or_diamonds": tot.get("cyclic", 0),
+        "cases_rerun_over_closure_values_with_captured_environment": tot.get("closure_underlay", 0),
         "max_fuel_used_by_any_run": tot.get("maxfuel", 0), "fuel_budget": FUEL,
         "dwarf_files": [os.path.basename(f) for f in files], "dwarf_start_DIEs_x_closures": t2.get("dies", 0),
         "fuel_exhausted_events": hs.get("fuel_exhausted"),
